@@ -16,6 +16,10 @@ def run(tier, runner):
     r_span = shape2.inline_span(progs_all)
     r_w = encoding.enc_w(small + real)
     r_r = encoding.enc_r(small + real)
+    r_es = encoding.enc_sib(small + real)
+    r_si = encoding.shrink_inline(small + real)
+    r_es.require(3, 'the three encoders')
+    r_si.require(1, 'shrink_impl')
     ssp = matrix.programs(runner, matrix.smallset_points(tier)) + real
     r_ssg = sets.ss_grow(ssp)
     r_sss = sets.ss_state(ssp)
@@ -24,7 +28,7 @@ def run(tier, runner):
     r_gg.require(7, 'grow call sites')
     r_span.require(6, 'inline layouts')
     return {
-        'results': [r1, r_cs, r_gg, r_span, r_w, r_r, r_ssg, r_sss],
+        'results': [r1, r_cs, r_gg, r_span, r_w, r_r, r_es, r_si, r_ssg, r_sss],
         'explanation': 'NOALLOC: on the complete resolved call graph of every FixedCapacityVector instantiation (all public members, '
                        'all archetypes, both growing policies; bodies of std algorithms included) no allocation request (malloc/realloc/'
                        'operator new/get_temporary_buffer/any allocator allocate) is reachable.  SmallVector, structural half: CAP-STABLE (an allocator request is reachable from the '
